@@ -14,5 +14,5 @@ go build ./... >/tmp/confirm-build-$$.log 2>&1; build=$?
 go test -vet=off -count=1 $(go list ./... | grep -v /SEEDS/) >/tmp/confirm-suite-$$.log 2>&1; suite=$?
 sh -c "$demo" >/tmp/confirm-patched-$$.log 2>&1; patched=$?
 echo "name=$name demo_clean_rc=$clean build_rc=$build suite_rc=$suite demo_patched_rc=$patched"
-if [ $clean -eq 0 ] && [ $build -eq 0 ] && [ $suite -eq 0 ] && [ $patched -ne 0 ]; then echo CONFIRMED; else echo NOT-CONFIRMED; tail -5 /tmp/confirm-suite-$$.log /tmp/confirm-clean-$$.log; fi
+if [ $clean -eq 0 ] && [ $build -eq 0 ] && [ $suite -eq 0 ] && [ $patched -ne 0 ]; then echo CONFIRMED; else echo NOT-CONFIRMED; tail -n 8 /tmp/confirm-suite-$$.log; tail -n 8 /tmp/confirm-clean-$$.log; fi
 rm -rf "$copy" /tmp/confirm-*-$$.log
